@@ -23,6 +23,7 @@ type vNode struct {
 	skip   int
 	ctxk   []string // registered context keys in order
 	wr     io.Writer // nil = never given a writer
+	nw     int       // number of normal writers the logger's own set holds
 }
 
 func vCheckTree(ns []vNode) {
@@ -60,8 +61,14 @@ func vCheckTree(ns []vNode) {
 		if n.wr == nil {
 			vAssert(l.writer == nil, "C10: a logger never given writers has none")
 		} else {
-			vAssert(l.writer != nil && len(l.writer.Normal) == 1, "C10: writer is this logger's own")
+			want := n.nw
+			if want == 0 {
+				want = 1
+			}
+			vAssert(l.writer != nil && len(l.writer.Normal) == want, "C10: writer is this logger's own")
 		}
+		// loggers without writers of their own fall back to the package's default set, which no logger's operation may change
+		vAssert(defaultWriter != nil && len(defaultWriter.Normal) == 1 && len(defaultWriter.Error) == 1, "C10: the package's default writers are not changed by an operation on a logger")
 	}
 }
 
@@ -98,7 +105,7 @@ func VH_C10() {
 	for k := 0; k < steps; k++ {
 		x := vChoose(len(ns))
 		X := ns[x].l
-		op := vChoose(23)
+		op := vChoose(24)
 		// child-creating operations: child starts with the receiver's level and format only
 		newChild := func(c *Entry) int {
 			for i := range ns {
@@ -246,9 +253,23 @@ func VH_C10() {
 			w := &recW{k, rec}
 			ret = X.SetWriter(w)
 			ns[t].wr = w
+			ns[t].nw = 1
 		case 20:
 			// lookups only
 			ret = X
+		case 23:
+			// AddWriter as the first writer operation of a logger: its own set becomes the defaults plus w
+			w := &recW{k, rec}
+			ret = X.AddWriter(w)
+			if ns[t].wr == nil {
+				ns[t].nw = 2
+			} else {
+				if ns[t].nw == 0 {
+					ns[t].nw = 1
+				}
+				ns[t].nw++
+			}
+			ns[t].wr = w
 		case 21:
 			// a prepared attribute set with spare capacity, handed to several loggers
 			ret = X.SetAttrs1(shared)
